@@ -68,6 +68,7 @@ type subLog struct {
 }
 
 type pubRec struct {
+	chSeq     int // sequence number per (publisher, channel)
 	pub, seq  int
 	ch        string
 	payload   string
@@ -250,10 +251,12 @@ func run(o *common.Opts, srv *procs.Server, sc scenario, st *stats) {
 				return
 			}
 			defer c.Close()
+			chSeq := map[string]int{}
 			for s := 0; s < sc.perPub; s++ {
 				ch := chans[pr.Intn(len(chans))]
+				chSeq[ch]++
 				payload := fmt.Sprintf("p%d:%d:\r\n%x%s", p, s, pr.Int63(), pad)
-				rec := pubRec{pub: p, seq: s, ch: ch, payload: payload, call: now()}
+				rec := pubRec{pub: p, seq: s, chSeq: chSeq[ch], ch: ch, payload: payload, call: now()}
 				v, err := c.Do("PUBLISH", ch, payload)
 				rec.ret = now()
 				if err != nil {
@@ -324,7 +327,8 @@ func run(o *common.Opts, srv *procs.Server, sc scenario, st *stats) {
 			report(witness{Kind: "subscriber-error", Detail: fmt.Sprintf("subscriber %d: %s (crash line: %s)", sl.id, sl.readErr, srv.CrashLine()), Sig: "subscriber-error|" + strings.SplitN(sl.readErr, ":", 2)[0]})
 			continue
 		}
-		lastSeq := map[string]int{} // channel|publisher -> last seq
+		lastSeq := map[string]int{}   // channel|publisher -> last seq
+		lastChSeq := map[string]int{} // channel|publisher -> last per-channel seq
 		got := map[string]int{}
 		for _, m := range sl.msgs {
 			st.delivered++
@@ -345,6 +349,12 @@ func run(o *common.Opts, srv *procs.Server, sc scenario, st *stats) {
 				report(witness{Kind: "duplicate", Detail: fmt.Sprintf("subscriber %d (double SUBSCRIBE: %v) received publisher %d's message %d on %q twice", sl.id, sl.doubleSub, rc.pub, rc.seq, m.ch), Sig: fmt.Sprintf("duplicate-delivery|doublesub=%v", sl.doubleSub)})
 			}
 			k := fmt.Sprintf("%s|%d", m.ch, rc.pub)
+			if lastC, ok := lastChSeq[k]; ok && got[m.payload] == 1 && rc.chSeq > lastC+1 {
+				report(witness{Kind: "gap", Detail: fmt.Sprintf("subscriber %d received publisher %d's messages #%d and then #%d on %q: the ones in between were published while it was subscribed and reading, and never arrived", sl.id, rc.pub, lastC, rc.chSeq, m.ch), Sig: "message-lost|gap"})
+			}
+			if got[m.payload] == 1 {
+				lastChSeq[k] = rc.chSeq
+			}
 			if last, ok := lastSeq[k]; ok && rc.seq <= last && got[m.payload] == 1 {
 				report(witness{Kind: "order", Detail: fmt.Sprintf("subscriber %d received publisher %d's message %d after message %d on %q", sl.id, rc.pub, rc.seq, last, m.ch), Sig: "out-of-order"})
 			}
@@ -395,6 +405,108 @@ func run(o *common.Opts, srv *procs.Server, sc scenario, st *stats) {
 }
 
 func okKey(m map[string]int, k string) bool { _, ok := m[k]; return ok }
+
+// relay: one channel, one publisher publishing continuously, and a chain of subscribers each of which joins while
+// its predecessor (the channel's only other subscriber) leaves - so pruning the last dead subscriber overlaps with a
+// new SUBSCRIBE over and over. A subscriber whose confirmation has arrived must start receiving: staying silent for
+// 1.5 s while at least 50 PUBLISHes completed inside its confirmed window is a lost-message witness.
+func relay(srv *procs.Server, seed int64, hops int, st *stats) {
+	ch := fmt.Sprintf("relay:%d", seed%100000)
+	stop := make(chan struct{})
+	var pubMu sync.Mutex
+	type prec struct{ call, ret time.Time }
+	var pubs []prec
+	var pwg sync.WaitGroup
+	pwg.Add(1)
+	go func() {
+		defer pwg.Done()
+		c, err := respc.Dial(srv.Addr, 30*time.Second)
+		if err != nil {
+			return
+		}
+		defer c.Close()
+		for i := 0; ; i++ {
+			select {
+			case <-stop:
+				return
+			default:
+			}
+			t0 := time.Now()
+			if _, err := c.Do("PUBLISH", ch, fmt.Sprintf("r%d", i)); err != nil {
+				return
+			}
+			pubMu.Lock()
+			pubs = append(pubs, prec{t0, time.Now()})
+			pubMu.Unlock()
+			time.Sleep(150 * time.Microsecond)
+		}
+	}()
+	r := rand.New(rand.NewSource(seed))
+	var prev *respc.Client
+	for h := 0; h < hops; h++ {
+		c, err := respc.Dial(srv.Addr, 30*time.Second)
+		if err != nil {
+			break
+		}
+		// the predecessor leaves somewhere around this SUBSCRIBE
+		if prev != nil {
+			p := prev
+			d := time.Duration(r.Intn(400)) * time.Microsecond
+			go func() { time.Sleep(d); p.Close() }()
+		}
+		time.Sleep(time.Duration(r.Intn(300)) * time.Microsecond)
+		if err := c.Send(respc.Cmd("SUBSCRIBE", ch)); err != nil {
+			c.Close()
+			break
+		}
+		var conf time.Time
+		got := 0
+		silentSince := time.Now()
+		for got < 2 {
+			v, err := c.RecvTimeout(1500 * time.Millisecond)
+			if err != nil {
+				break
+			}
+			if isPush(v) {
+				got++
+				continue
+			}
+			if conf.IsZero() {
+				conf = time.Now()
+				silentSince = conf
+			}
+		}
+		st.delivered += got
+		if got == 0 && !conf.IsZero() {
+			inside := 0
+			end := time.Now()
+			pubMu.Lock()
+			for _, p := range pubs {
+				if p.call.After(conf) && p.ret.Before(end) {
+					inside++
+				}
+			}
+			pubMu.Unlock()
+			if inside >= 50 {
+				report(witness{Kind: "lost", Detail: fmt.Sprintf("relay hop %d: the subscriber's SUBSCRIBE to %q was confirmed, %d PUBLISHes then began and completed during the following %.1fs, and it received none of them (its predecessor, the channel's only other subscriber, had just disconnected)", h, ch, inside, time.Since(silentSince).Seconds()), Sig: "message-lost|subscriber-in-detached-channel"})
+				c.Close()
+				break
+			}
+		}
+		st.windows++
+		prev = c
+	}
+	if prev != nil {
+		prev.Close()
+	}
+	close(stop)
+	pwg.Wait()
+	pubMu.Lock()
+	st.published += len(pubs)
+	pubMu.Unlock()
+	st.patterns["relay"]++
+	st.scenarios++
+}
 
 func isPush(v respc.Value) bool {
 	return v.Kind == '*' && len(v.Arr) == 3 && v.Arr[0].Kind == '$' && string(v.Arr[0].Str) == "message" && v.Arr[1].Kind == '$' && v.Arr[2].Kind == '$'
@@ -453,7 +565,11 @@ func main() {
 		if i%9 == 7 {
 			sc.doubleSub = true
 		}
-		run(o, srv, sc, st)
+		if i%6 == 5 {
+			relay(srv, sc.seed, o.Pick(120, 400), st)
+		} else {
+			run(o, srv, sc, st)
+		}
 		if srv.Exited() {
 			report(witness{Kind: "crash", Detail: "server exited: " + srv.CrashLine() + "\n" + tailStr(srv.Output(), 3000), Sig: "crash|" + strings.SplitN(srv.CrashLine(), " [", 2)[0]})
 			break
